@@ -130,7 +130,7 @@ theorem frame_length_field_is_cast (k : Codec) (r : Req) (c : Option Compression
         simp [header, be32]
       rw [h5, h9, hl, rdU32_be32]
 
-example : ∃ f, encodeReq ⟨id, fun _ _ => none, some, fun _ => none⟩ (.query [0x78] ⟨.one, none, none, some 5000, none, true, [.null]⟩)
+example : ∃ f, encodeReq ⟨id, fun _ _ => none, some, fun _ => none, fun _ => none⟩ (.query [0x78] ⟨.one, none, none, some 5000, none, true, [.null]⟩)
     none true = .ok f ∧ f.take 9 = [4, 2, 0, 0, 7, 0, 0, 0, 18] := ⟨_, rfl, by decide⟩
 
 /-! ### the body reads back to what was asked -/
@@ -140,10 +140,20 @@ example : ∃ f, encodeReq ⟨id, fun _ _ => none, some, fun _ => none⟩ (.quer
 parser reads it back to exactly the request: kind, statement text or id (and result-metadata id), consistency, serial
 consistency, page size, paging state, timestamp, skip-metadata flag, the values in order; for BATCH the type and the
 statements in order each with its own values; STARTUP options (in the map's iteration order), REGISTER event names,
-AUTH_RESPONSE token; the tracing flag; nothing left over.  (`hlen`: the body is below 4 GiB.) -/
+AUTH_RESPONSE token; the tracing flag; nothing left over.  (`hlen`: the body is below 4 GiB.)  For a BATCH the view pairs
+statement `i` with value list `i` (`List.zip`); the second conjunct says no statement or value list is lost in that
+pairing: an emitted BATCH always has exactly one value list per statement. -/
 theorem parse_encode (k : Codec) (r : Req) (tr : Bool) (f : List UInt8)
     (h : encodeReq k r none tr = .ok f) (hlen : f.length - 9 < 2 ^ 32) :
-    parseReq (hasMetadataId r) f = some { compressed := false, tracing := tr, stream := 0, req := view r } := by
+    parseReq (hasMetadataId r) f = some { compressed := false, tracing := tr, stream := 0, req := view r } ∧
+    (∀ ty ss vs c sc ts, r = .batch ty ss vs c sc ts → ss.length = vs.length) := by
+  refine ⟨?_, ?_⟩
+  case refine_2 =>
+    intro ty ss vs c sc ts hr
+    subst hr
+    cases hb : encodeBody (.batch ty ss vs c sc ts) with
+    | error e => simp [encodeReq, hb] at h
+    | ok b => exact (rdBody_encodeBody hb).1.2.1
   obtain ⟨_, _, _, _, _, _, _, hph⟩ := frame_valid k r none tr f h hlen
   simp only [encodeReq] at h
   split at h
@@ -185,16 +195,52 @@ theorem parse_encode_set_stream (k : Codec) (r : Req) (tr : Bool) (f : List UInt
     rw [e]
     simp [parseReq, hph, parseBody, hb]
 
+/-- **encode_injective.** Per mode (same tracing flag, same "EXECUTE carries a result-metadata id" mode — the one bit
+the parser has to be told, as a server knows it from the negotiated extension): two requests with the same frame are the
+same request.  Nothing the caller asked for is lost or conflated on the wire. -/
+theorem encode_injective (k : Codec) (r₁ r₂ : Req) (tr : Bool) (f : List UInt8)
+    (h₁ : encodeReq k r₁ none tr = .ok f) (h₂ : encodeReq k r₂ none tr = .ok f)
+    (hm : hasMetadataId r₁ = hasMetadataId r₂) (hlen : f.length - 9 < 2 ^ 32) : r₁ = r₂ := by
+  have p₁ := (parse_encode k r₁ tr f h₁ hlen).1
+  have p₂ := (parse_encode k r₂ tr f h₂ hlen).1
+  rw [hm, p₂] at p₁
+  simp only [Option.some.injEq, FrameView.mk.injEq, true_and] at p₁
+  have s₁ : batchShapeOk r₁ := by
+    cases hb : encodeBody r₁ with
+    | error e => simp [encodeReq, hb] at h₁
+    | ok b => exact encodeBody_batchShape hb
+  have s₂ : batchShapeOk r₂ := by
+    cases hb : encodeBody r₂ with
+    | error e => simp [encodeReq, hb] at h₂
+    | ok b => exact encodeBody_batchShape hb
+  exact (view_inj s₂ s₁ p₁).symm
+
 /-! ### compression -/
 
+/-- What is assumed of the external block codecs (explicit hypotheses of `compressed_body`, not axioms):
+* `lz4_inv`: `lz4_flex::decompress (lz4_flex::compress b) |b| = b`;
+* `lz4_ratio`: an LZ4 block never expands to more than `255·|block| + 64` bytes — a fact of the LZ4 block format (a
+  sequence encodes at most 255 output bytes per input byte), which the driver's `decompress` relies on as a guard;
+* `snap_inv`: `Decoder::decompress_vec (Encoder::compress b) = b`, and `decompress_len` of the block is `|b|`;
+* `snap_ratio`: a Snappy block never expands to more than `64·|block| + 64` bytes (guard of `decompress`). -/
+structure CodecLaws (k : Codec) : Prop where
+  lz4_inv : ∀ b, k.unlz4 (k.lz4 b) b.length = some b
+  lz4_ratio : ∀ b, b.length ≤ (k.lz4 b).length * 255 + 64
+  snap_inv : ∀ b cb, k.snappy b = some cb → k.unsnappy cb = some b ∧ k.snappyLen cb = some b.length
+  snap_ratio : ∀ b cb, k.snappy b = some cb → b.length ≤ cb.length * 64 + 64
+
+/-- The codec laws are satisfiable (the "stored" codec: blocks are the data itself). -/
+example : CodecLaws ⟨id, fun b n => if b.length = n then some b else none, some, some, fun b => some b.length⟩ :=
+  ⟨by intro b; simp, by intro b; simp only [id]; omega,
+   by intro b cb h; simp only [Option.some.injEq] at h; subst h; exact ⟨rfl, rfl⟩,
+   by intro b cb h; simp only [Option.some.injEq] at h; subst h; omega⟩
+
 /-- **compressed_body.** With compression negotiated the header carries the compression flag and the compressed
-size, and — assuming the block codecs invert (`decompress (compress b) = b`: explicit hypotheses `hlz4`, `hsnap`,
-not axioms) — the payload decompresses (the driver's own `decompress`) to exactly the uncompressed body, which the
-independent parser reads back to the request.  `hbody`: the uncompressed body is below 4 GiB (LZ4's
-`uncomp_body.len() as u32` prefix). -/
+size, and — assuming `CodecLaws k` — the payload goes through the driver's own `decompress` *including its size
+guards* and comes out as exactly the uncompressed body, which the independent parser reads back to the request.
+The uncompressed body must be below 4 GiB (LZ4's `uncomp_body.len() as u32` prefix). -/
 theorem compressed_body (k : Codec) (r : Req) (c : Compression) (tr : Bool) (f : List UInt8)
-    (hlz4 : ∀ b, k.unlz4 (k.lz4 b) b.length = some b)
-    (hsnap : ∀ b cb, k.snappy b = some cb → k.unsnappy cb = some b)
+    (laws : CodecLaws k)
     (h : encodeReq k r (some c) tr = .ok f) (hlen : f.length - 9 < 2 ^ 32) :
     ∃ body, encodeBody r = .ok body ∧
       (body.length < 2 ^ 32 → decompress k c (f.drop 9) = some body ∧
@@ -221,19 +267,28 @@ theorem compressed_body (k : Codec) (r : Req) (c : Compression) (tr : Bool) (f :
         | lz4 =>
           simp only [compressAppend, Except.ok.injEq] at hpl
           subst hpl
-          simp only [decompress, rdU32_be32, Nat.mod_eq_of_lt hbl, hlz4]
+          have hr := laws.lz4_ratio body
+          have hg : ¬ body.length > (k.lz4 body).length * 255 + 64 := by omega
+          simp only [decompress, rdU32_be32, Nat.mod_eq_of_lt hbl, hg, if_false, laws.lz4_inv]
         | snappy =>
           simp only [compressAppend] at hpl
           split at hpl
           · rename_i cb hcb
             cases hpl
-            simp only [decompress, hsnap body _ hcb]
+            obtain ⟨h1, h2⟩ := laws.snap_inv body _ hcb
+            have hr := laws.snap_ratio body _ hcb
+            have hg : ¬ body.length > pl.length * 64 + 64 := by omega
+            simp only [decompress, h2, hg, if_false, h1]
           · cases hpl
       refine ⟨hdec, ?_⟩
       obtain ⟨_, hrd⟩ := rdBody_encodeBody hbody
       have hb := hrd []
       rw [List.append_nil] at hb
       simp [parseReqCompressed, hph, hdec, parseBody, hb]
+
+/-- Without `lz4_ratio` the driver's `decompress` would refuse its own frame: the guard is really there. -/
+example : decompress ⟨fun _ => [], fun _ n => some (List.replicate n 0), some, some, fun b => some b.length⟩ .lz4
+    (be32 65 ++ []) = none := by decide
 
 /-! ### oversize inputs are refused, never truncated -/
 
@@ -274,8 +329,27 @@ theorem oversize_cases (k : Codec) (c : Option Compression) (tr : Bool) :
     (∀ ty ss vs cn sc ts i, .prepared i ∈ ss → 2 ^ 16 ≤ i.length →
       ∃ e, encodeReq k (.batch ty ss vs cn sc ts) c tr = .error e) ∧
     (∀ ty ss vs cn sc ts l, l ∈ vs → 65535 < l.length →
-      ∃ e, encodeReq k (.batch ty ss vs cn sc ts) c tr = .error e) := by
-  refine ⟨?_, ?_, ?_, ?_, ?_, ?_, ?_, ?_, ?_, ?_⟩
+      ∃ e, encodeReq k (.batch ty ss vs cn sc ts) c tr = .error e) ∧
+    -- a bound value of 2^31 bytes or more (QUERY / EXECUTE / any BATCH statement)
+    (∀ t p b, .val b ∈ p.values → 2 ^ 31 ≤ b.length → ∃ e, encodeReq k (.query t p) c tr = .error e) ∧
+    (∀ i m p b, .val b ∈ p.values → 2 ^ 31 ≤ b.length → ∃ e, encodeReq k (.execute i m p) c tr = .error e) ∧
+    (∀ ty ss vs cn sc ts l b, l ∈ vs → .val b ∈ l → 2 ^ 31 ≤ b.length →
+      ∃ e, encodeReq k (.batch ty ss vs cn sc ts) c tr = .error e) ∧
+    -- an unprepared BATCH statement text of 2^31 bytes or more
+    (∀ ty ss vs cn sc ts t, .query t ∈ ss → 2 ^ 31 ≤ t.length →
+      ∃ e, encodeReq k (.batch ty ss vs cn sc ts) c tr = .error e) ∧
+    -- a paging state of 2^31 bytes or more (QUERY / EXECUTE)
+    (∀ t p ps, p.pagingState = some ps → 2 ^ 31 ≤ ps.length → ∃ e, encodeReq k (.query t p) c tr = .error e) ∧
+    (∀ i m p ps, p.pagingState = some ps → 2 ^ 31 ≤ ps.length → ∃ e, encodeReq k (.execute i m p) c tr = .error e) ∧
+    -- an AUTH_RESPONSE token of 2^31 bytes or more
+    (∀ b, 2 ^ 31 ≤ b.length → ∃ e, encodeReq k (.authResponse (some b)) c tr = .error e) ∧
+    -- a STARTUP key or value of 2^16 bytes or more, more than 65535 STARTUP entries
+    (∀ opts kv, kv ∈ opts → (2 ^ 16 ≤ kv.1.length ∨ 2 ^ 16 ≤ kv.2.length) →
+      ∃ e, encodeReq k (.startup opts) c tr = .error e) ∧
+    (∀ opts, 65535 < opts.length → ∃ e, encodeReq k (.startup opts) c tr = .error e) ∧
+    -- more than 65535 REGISTER event types
+    (∀ evs, 65535 < evs.length → ∃ e, encodeReq k (.register evs) c tr = .error e) := by
+  refine ⟨?_, ?_, ?_, ?_, ?_, ?_, ?_, ?_, ?_, ?_, ?_, ?_, ?_, ?_, ?_, ?_, ?_, ?_, ?_, ?_⟩
   · intro t p h; apply oversize_refused_frame; intro hr; have := hr.1; omega
   · intro t h; apply oversize_refused_frame; intro hr; simp only [Representable] at hr; omega
   · intro i m p h; apply oversize_refused_frame; intro hr; have := hr.1; omega
@@ -288,6 +362,31 @@ theorem oversize_cases (k : Codec) (c : Option Compression) (tr : Bool) :
     have := hr.2.2.1 _ hi; simp only [stmtFits] at this; omega
   · intro ty ss vs cn sc ts l hl h; apply oversize_refused_frame; intro hr
     have := (hr.2.2.2 _ hl).1; omega
+  · intro t p b hb h; apply oversize_refused_frame; intro hr
+    have := hr.2.1.2 _ hb; simp only [cellFits] at this; omega
+  · intro i m p b hb h; apply oversize_refused_frame; intro hr
+    have := hr.2.2.1.2 _ hb; simp only [cellFits] at this; omega
+  · intro ty ss vs cn sc ts l b hl hb h; apply oversize_refused_frame; intro hr
+    have := (hr.2.2.2 _ hl).2 _ hb; simp only [cellFits] at this; omega
+  · intro ty ss vs cn sc ts t ht h; apply oversize_refused_frame; intro hr
+    have := hr.2.2.1 _ ht; simp only [stmtFits] at this; omega
+  · intro t p ps hps h; apply oversize_refused_frame; intro hr; have := hr.2.2 ps hps; omega
+  · intro i m p ps hps h; apply oversize_refused_frame; intro hr; have := hr.2.2.2 ps hps; omega
+  · intro b h; apply oversize_refused_frame; intro hr; have := hr b rfl; omega
+  · intro opts kv hkv h; apply oversize_refused_frame; intro hr; have := hr.2 kv hkv; omega
+  · intro opts h; apply oversize_refused_frame; intro hr; have := hr.1; omega
+  · intro evs h; apply oversize_refused_frame; intro hr; simp only [Representable] at hr; omega
+
+/-- **bigField_sound.** For the request shapes of the `biglen` cases (one field of arbitrary size, everything else
+small) the length-only function `bigFieldErr` — which is what the model driver runs, because a 2 GiB `List UInt8`
+cannot be built — gives exactly the encoder's answer (accepted, or the same error kind) for every byte string of that
+length. -/
+theorem bigField_sound (what : BigField) (b : List UInt8) :
+    bigFieldRun what b = (match bigFieldErr what b.length with | none => .ok () | some e => .error e) := by
+  by_cases h : b.length < 2 ^ 31 <;> cases what <;>
+    simp [bigFieldRun, bigFieldErr, encodeBody, mkSerVals, addValues, encodeCell, writeLongString, writeIntLength,
+      writeBytes, writeBytesOpt, writeShortBytes, writeString, writeShortLength, encodeParams, defaultParams,
+      mkSerValsList, encodeBatch, batchLoop, encodeBatchStmt, encodeBatchA, batchLoopA, rowCells, h]
 
 /-! ### BATCH built through `RawBatchValuesAdapter` (typed rows + per-statement contexts; the session's path) -/
 
@@ -318,7 +417,7 @@ theorem adapter_batch_parse (k : Codec) (ty : BatchType) (stmts : List (BatchStm
     obtain ⟨hbody, _⟩ := encodeBatchA_refines hb
     have hreq : encodeReq k (.batch ty (stmts.map Prod.fst) vals c sc ts) none tr = .ok f := by
       rw [encodeReq_eq, hbody, ← hb]; exact h
-    exact parse_encode k _ tr f hreq hlen
+    exact (parse_encode k _ tr f hreq hlen).1
 
 /-- **adapter_batch_mismatch_refused.** More (or fewer) value lists than statements, more than 65535 statements, a row
 that does not match its context, or an oversize id / row: the adapter path answers an error, never a frame with the
